@@ -278,6 +278,7 @@ func (e *env) reusedStructOther() {
 			}
 			e.c.Inc("fields_compared_reused_struct_other")
 		}
+		e.checkShadowed("read-reused-struct-other", out.Elem(), how)
 		e.c.Inc("reused_struct_other_reads")
 	}
 	if !e.callBad {
